@@ -74,9 +74,39 @@ func streamSchedule(rng *rand.Rand, cycles int, vary int) []strOp {
 	return ops
 }
 
+// soloSchedule: a single channel routed to both sides, triggered with length enabled and short length data so that it
+// expires (its status bit drops while its DAC stays on); nothing else is ever triggered.
+func soloSchedule(rng *rand.Rand, cycles int) []strOp {
+	ch := rng.Intn(4)
+	nrx1 := []int{0xff11, 0xff16, 0xff1b, 0xff20}[ch]
+	nrx2 := []int{0xff12, 0xff17, 0xff1a, 0xff21}[ch]
+	nrx3 := []int{0xff13, 0xff18, 0xff1d, 0xff22}[ch]
+	nrx4 := []int{0xff14, 0xff19, 0xff1e, 0xff23}[ch]
+	ops := []strOp{{0, 0xff26, 0x80}, {0, 0xff24, 0x77}, {0, 0xff25, 0x11 << uint(ch)}}
+	for i := 0; i < 16; i++ {
+		ops = append(ops, strOp{0, 0xff30 + i, 0x10 + rng.Intn(0xef)})
+	}
+	t := 0
+	for t < cycles {
+		dac := 0xf0 | rng.Intn(8)
+		if ch == 2 {
+			dac = 0x80
+			ops = append(ops, strOp{t, 0xff1c, 0x20})
+		}
+		lenData := 0x3c + rng.Intn(4)
+		if ch == 2 {
+			lenData = 0xf8 + rng.Intn(8)
+		}
+		ops = append(ops, strOp{t, nrx2, dac}, strOp{t, nrx1, lenData | rng.Intn(4)<<6}, strOp{t, nrx3, rng.Intn(256)}, strOp{t, nrx4, 0xc0 | rng.Intn(8)})
+		t += 4096 * (2 + rng.Intn(14))
+	}
+	return ops
+}
+
 // streamRun drives the audio unit with sample channels attached (or half attached) and logs every pair.
 func streamRun(id string, seed int64, cycles int, attached bool) *trace.Scenario {
 	rng := rand.New(rand.NewSource(seed))
+	solo := len(id) > 4 && id[:4] == "solo"
 	sc := &trace.Scenario{ID: id, Reset: []any{trace.B2I(attached), 1, "samples", seed, cycles}}
 	perr := machine.Try(func() {
 		l := make(chan float32, 64)
@@ -86,6 +116,9 @@ func streamRun(id string, seed int64, cycles int, attached bool) *trace.Scenario
 		}
 		a := audio.New(l, r)
 		ops := streamSchedule(rng, cycles, -1)
+		if solo {
+			ops = soloSchedule(rng, cycles)
+		}
 		k := 0
 		for c := 1; c <= cycles; c++ {
 			for k < len(ops) && ops[k].at < c {
@@ -271,6 +304,13 @@ func streamJobs(c *Ctx) []streamJob {
 		jobs = append(jobs, streamJob{fmt.Sprintf("samples-%d", i), "samples", rng.Int63n(1 << 40), cyc, true})
 	}
 	jobs = append(jobs, streamJob{"samples-detached", "samples", rng.Int63n(1 << 40), cyc / 4, false})
+	ns := 4
+	if c.Thorough() {
+		ns = 24
+	}
+	for i := 0; i < ns; i++ {
+		jobs = append(jobs, streamJob{fmt.Sprintf("solo-%d", i), "samples", rng.Int63n(1 << 40), 1 << 17, true})
+	}
 	np, pc := 6, 1<<16
 	if c.Thorough() {
 		np, pc = 60, 1<<18
